@@ -85,6 +85,50 @@ def shifted_openings(ctx, lines, limit=4):
     return out
 
 
+def unbound_key_commitments(ctx, lines, limit=2, slots=range(15)):
+    """Forgery against a verifier-key commitment that the transcript does not bind. For key commitment C_j with total
+    scalar s_j in the verification equation, replace
+         C_j  by  C_j + [d (x - z)] G      (the commitment of d (X - z); an attacker uses [x]G from the parameters)
+         W_z  by  W_z + [s_j d] G
+    The pairing equation is invariant under this pair of shifts for the challenges it was built with, so the (key', proof')
+    pair is accepted exactly by a verifier whose challenges do not depend on C_j. An honest verifier derives other
+    challenges from key' and rejects. `z`, `s_j` and G come from the Lean model (`vkscalars`). Only V3 statements: V1/V2
+    do not bind s_sigma_4 by design (the property says 'all four permutation commitments in V3')."""
+    out = []
+    honest = [l for l in lines if l.split(" ", 1)[0] == "expect-ok:honest" and l.split(" ")[2] in ("3", "v3", "V3")][:limit]
+    if not honest:
+        honest = [l for l in lines if l.split(" ", 1)[0] == "expect-ok:honest"][:limit]
+    reqs = ["vkscalars " + l.split(" ", 2)[2] for l in honest]
+    ans = ctx.model(reqs)
+    for l, a in zip(honest, ans):
+        d = dict(t.split("=", 1) for t in a.split() if "=" in t)
+        if not all(k in d for k in ("z", "scalars", "g")):
+            continue
+        toks = l.split(" ")
+        ver = toks[2]
+        x = int(toks[3], 16); vbytes = bytes.fromhex(toks[4]); proof = bytes.fromhex(toks[-1])
+        z = int(d["z"], 16); g = d["g"]
+        sc = [int(t, 16) for t in d["scalars"].split(",")]
+        lab_len = int.from_bytes(vbytes[0:8], "big")
+        off0 = 48 + lab_len + 8
+        wz = proof[9 * 48:10 * 48].hex()
+        for j in slots:
+            if j == 14 and ver not in ("3", "v3", "V3"):
+                continue
+            dl = 1 + (j * 7919 + x) % 1000
+            cj = vbytes[off0 + 48 * j: off0 + 48 * j + 48].hex()
+            m = ctx.model(["g1mul %x %s" % (dl * ((x - z) % R) % R, g), "g1mul %x %s" % (sc[j] * dl % R, g)])
+            if any((not t.strip()) or t.startswith("err") or t.startswith("bad") for t in m):
+                continue
+            m2 = ctx.model(["g1add %s %s" % (cj, m[0].strip()), "g1add %s %s" % (wz, m[1].strip())])
+            if any((not t.strip()) or t.startswith("err") or t.startswith("bad") for t in m2):
+                continue
+            v2 = vbytes[:off0 + 48 * j] + bytes.fromhex(m2[0].strip()) + vbytes[off0 + 48 * j + 48:]
+            p2 = proof[:9 * 48] + bytes.fromhex(m2[1].strip()) + proof[10 * 48:]
+            out.append("expect-reject:shifted-key-commitment-%d %s %s %s %s %s" % (j, toks[2], toks[3], v2.hex(), " ".join(toks[5:-1]), p2.hex()))
+    return out
+
+
 def labels():
     return [("plonk", b"plonk"), ("plonl", b"plonl"), ("Plonk", b"Plonk"), ("plon", b"plon"), ("plonk0", b"plonk\x00"), ("empty", b"")]
 
